@@ -15,8 +15,28 @@ from leaspy.variables.specs import IndepVariable
 from .. import tlc
 
 
+def _pool(n):
+    """n variable names in Python string order, full of names that differ only by case (the order of the
+    specification is the order of Python's default string comparison)."""
+    names = []
+    k = 0
+    while len(names) < n:
+        stem = chr(ord("a") + k % 26) + (str(k // 26) if k >= 26 else "")
+        for v in (stem.upper() + stem.upper(), stem.upper() + stem, stem + stem.upper(), stem + stem):
+            names.append(v + "_x")
+        k += 1
+    return sorted(names[:n])
+
+
+_POOLS = {}
+
+
 def name(i, n):
-    return "zz_unknown" if i == 0 else f"v{i:03d}"
+    if i == 0:
+        return "zz_unknown"
+    if n not in _POOLS:
+        _POOLS[n] = _pool(n)
+    return _POOLS[n][i - 1]
 
 
 def run_real(par, shuffle_seed=None):
@@ -84,6 +104,32 @@ def random_declaration(rnd, n, kind):
                 ps.add(v)
         par.append(sorted(ps))
     return par
+
+
+def structured_declarations():
+    """Graph families with many paths between two nodes / deep closures (complete DAGs, diamond towers, layered)."""
+    out = []
+    for n in range(5, 13):                       # complete DAG: 2^(n-2) paths from the first to the last node
+        out.append([list(range(1, v)) for v in range(1, n + 1)])
+        out.append([list(range(v + 1, n + 1)) for v in range(1, n + 1)])     # reversed name order
+    for k in range(2, 11):                       # tower of k diamonds: 2^k paths top to bottom
+        par = [[]]
+        top = 1
+        for _ in range(k):
+            a, b, c = len(par) + 1, len(par) + 2, len(par) + 3
+            par += [[top], [top], [a, b]]
+            top = c
+        out.append(par)
+    for layers, width in ((4, 3), (5, 3), (4, 4), (3, 5)):   # dense layered graphs: width^(layers-1) paths
+        par = []
+        prev = []
+        for _ in range(layers):
+            cur = list(range(len(par) + 1, len(par) + width + 1))
+            par += [list(prev) for _ in cur]
+            prev = cur
+        par.append(list(prev))
+        out.append(par)
+    return out
 
 
 def model_declaration(model):
